@@ -637,6 +637,15 @@ class MayRaise:
             elif name in STR_METHODS and recv is not None:
                 if not ty(recv) <= {S}:
                     out.append(Obligation(node, show(res), ("AttributeError",), f"str method on {sorted(map(str, ty(recv)))[:4]}"))
+            elif name in (".decode", ".encode") and recv is not None:
+                # strict codecs raise on arbitrary data (UnicodeDecodeError / UnicodeEncodeError are ValueErrors)
+                err = e.kwargs.get("errors") or (e.args[1] if len(e.args) > 1 else None)
+                lenient = isinstance(err, tuple) and err[0] == "const" and err[1] in ("replace", "ignore", "backslashreplace", "surrogateescape", "surrogatepass", "xmlcharrefreplace", "namereplace")
+                if name == ".decode" and not lenient:
+                    self.note(res, "call")
+                    out.append(Obligation(node, show(res), ("ValueError",), "bytes.decode() with the strict error handler raises UnicodeDecodeError on arbitrary bytes"))
+                elif name == ".encode" and not lenient and not ty(recv) <= {S}:
+                    out.append(Obligation(node, show(res), ("AttributeError",), f"str method on {sorted(map(str, ty(recv)))[:4]}"))
             elif name in (".search", ".match") and args:
                 if not ty(args[0]) <= {S}:
                     out.append(Obligation(node, show(res), ("TypeError",), "regex search on a non-string"))
